@@ -220,6 +220,54 @@ func c08Spaces(c *fw.Ctx) {
 				})
 			}
 		})
+	ncList := c16NonCanonical()
+	c.Space("go-forms", fmt.Sprintf("%d records in forms only the Go structs can hold (the list of C16's noncanonical space: parameter / option / bitmap lists in every order, 16-octet IPv4 forms, unmasked prefixes, mixed case, REPORTING agent domains that the packer has to complete with the root): Len(rr) ≥ PackRR, and 1, 2 and 3 of them in a message under both Compress settings: Len ≥ Pack and Pack never fails for lack of room (forms that PackRR refuses even with 65535 free octets — an unsorted bitmap, an AAAA holding 4 octets — are not packable messages and are counted); non-trivial: Pack succeeds", len(ncList)), true,
+		func(emit func(func(*fw.R))) {
+			for _, nc := range ncList {
+				nc := nc
+				emit(func(r *fw.R) {
+					tn := strings.Fields(nc.what)[0]
+					rr := nc.mk()
+					buf := make([]byte, 65535)
+					if off, err := dns.PackRR(rr, buf, 0, nil, false); err == nil {
+						r.Nontrivial()
+						if l := dns.Len(rr); l < off {
+							r.Fail("rr-len-underestimates/"+tn+"/go-forms", "Len(rr)=%d < PackRR=%d — %s", l, off, nc.what)
+						}
+					} else {
+						// not packable even into 65535 free octets: outside "every message that can be packed"
+						r.Count("PackRR refuses the form", 1)
+						return
+					}
+					for n := 1; n <= 3; n++ {
+						for _, comp := range []bool{false, true} {
+							m := new(dns.Msg)
+							m.SetQuestion("Host.Example.ORG.", dns.TypeANY)
+							m.Compress = comp
+							for i := 0; i < n; i++ {
+								if t := rr.Header().Rrtype; t == dns.TypeOPT || t == dns.TypeTSIG {
+									m.Extra = append(m.Extra, nc.mk())
+								} else {
+									m.Answer = append(m.Answer, nc.mk())
+								}
+							}
+							l := m.Len()
+							b, err := m.Pack()
+							switch {
+							case err != nil && isBufErr(err):
+								r.Fail("pack-no-room/"+tn+"/go-forms", "Pack(Compress=%v) of %d × {%s} failed for lack of space: %v (Len=%d)", comp, n, nc.what, err, l)
+							case err != nil:
+								r.Count("Pack refuses the form", 1)
+							case l < len(b):
+								r.Fail("len-underestimates/"+tn+"/go-forms", "Len()=%d < len(Pack())=%d with Compress=%v for %d × {%s}", l, len(b), comp, n, nc.what)
+							}
+						}
+					}
+					r.Sample(func() any { return nc.what })
+				})
+			}
+		})
+
 	c.Space("bitmaps", "NSEC, NSEC3 and CSYNC with every subset of the type set {0,1,255,256,257,65535} (ascending) as bitmap; non-trivial: non-empty subset", true,
 		func(emit func(func(*fw.R))) {
 			set := []uint16{0, 1, 255, 256, 257, 65535}
